@@ -147,6 +147,12 @@ var propSpecs = map[string]*PropSpec{
 		TrustedBase: []string{"data.Normalize / Coerce / CoerceLossless convert values as documented (not under contract: no bit-vector mode in the engine; exercised by the bounded matrix)", "Go's own arithmetic on the asserted operand types is the fixed-width arithmetic of the language reference", "float and complex value semantics are not modelled"},
 		Extra:       c03Extra,
 	},
+	"C34": {
+		Patterns:    []string{"./..."},
+		Level:       "proof",
+		Explanation: "placeholder",
+		Extra:       c34Extra,
+	},
 	"C07": {
 		Patterns:    []string{"./..."},
 		Level:       "proof",
